@@ -717,6 +717,19 @@ func (env *ExprEnv) fieldOf(x TV, name string) TV {
 	return TV{}
 }
 
+func (env *ExprEnv) tryEval(e ast.Expr) (tv TV, ok bool) {
+	defer func() {
+		if r := recover(); r != nil {
+			if _, isE := r.(*exprError); isE {
+				ok = false
+				return
+			}
+			panic(r)
+		}
+	}()
+	return env.eval(e), true
+}
+
 func (env *ExprEnv) tryField(x TV, name string) (tv TV, ok bool) {
 	defer func() {
 		if r := recover(); r != nil {
@@ -1201,7 +1214,20 @@ func (env *ExprEnv) call(e *ast.CallExpr) TV {
 		dom, _ := v.mapArrays(mt)
 		return TV{T: fmt.Sprintf("(and (not (= %s 0)) (select %s %s))", m.T, v.rd(env.heapNow(), dom, m.T), k.T), Ty: types.Typ[types.Bool], Sort: "Bool"}
 	case "calls", "lastnonnil":
-		// calls(f): number of invocations of function value f so far (ghost trace)
+		// calls(f): number of invocations of function value f so far (ghost trace);
+		// calls(x.M) with x of interface type: invocations of method M on that value
+		if se, ok := e.Args[0].(*ast.SelectorExpr); ok && fname == "calls" {
+			if x, ok := env.tryEval(se.X); ok && x.Ty != nil {
+				if it, isI := x.Ty.Underlying().(*types.Interface); isI {
+					for i := 0; i < it.NumMethods(); i++ {
+						if it.Method(i).Name() == se.Sel.Name {
+							v.regArray("CALLS", fmt.Sprintf("(Array Int %s)", v.idx()))
+							return TV{T: v.rd(env.heapNow(), "CALLS", v.methodKey(x.T, se.Sel.Name)), Ty: types.Typ[types.Int], Sort: v.idx()}
+						}
+					}
+				}
+			}
+		}
 		f := env.eval(e.Args[0])
 		if f.Sort != "Int" {
 			fail("%s() of a non-function value", fname)
